@@ -5,7 +5,10 @@ package main
 // simulator-owned parties, plus canonical fingerprints of responses.
 
 import (
+	"context"
+	"crypto/tls"
 	"fmt"
+	"io"
 	"net/http"
 	"net/url"
 	"sort"
@@ -25,13 +28,23 @@ type Req struct {
 	Method string `json:"m"`
 	H      []HV   `json:"h,omitempty"`
 	Host   string `json:"host,omitempty"` // r.Host / URL host; default server.test
+	// Shape selects what else the *http.Request carries (0: a plain HTTP/1.1
+	// request for /resource): protocol version, TLS state, remote address, path and
+	// query, the OPTIONS * form, a body, an already cancelled context. No CORS
+	// decision may depend on any of it.
+	Shape int `json:"shape,omitempty"`
 }
+
+const nShapes = 9
 
 func (q Req) String() string {
 	var sb strings.Builder
 	sb.WriteString(q.Method)
 	if q.Host != "" {
 		sb.WriteString(" host=" + q.Host)
+	}
+	if q.Shape != 0 {
+		fmt.Fprintf(&sb, " shape=%d", q.Shape)
 	}
 	for _, h := range q.H {
 		fmt.Fprintf(&sb, " %s=%q", h.K, h.V)
@@ -49,7 +62,7 @@ func (q Req) get(k string) ([]string, bool) {
 }
 
 func (q Req) with(k string, v ...string) Req {
-	out := Req{Method: q.Method, Host: q.Host}
+	out := Req{Method: q.Method, Host: q.Host, Shape: q.Shape}
 	done := false
 	for _, h := range q.H {
 		if h.K == k {
@@ -66,7 +79,7 @@ func (q Req) with(k string, v ...string) Req {
 }
 
 func (q Req) without(k string) Req {
-	out := Req{Method: q.Method, Host: q.Host}
+	out := Req{Method: q.Method, Host: q.Host, Shape: q.Shape}
 	for _, h := range q.H {
 		if h.K != k {
 			out.H = append(out.H, HV{h.K, append([]string{}, h.V...)})
@@ -87,10 +100,75 @@ func (q Req) build() *http.Request {
 		}
 		h[hv.K] = vs
 	}
+	var r *http.Request
 	if q.Host != "" {
-		return &http.Request{Method: q.Method, URL: &url.URL{Scheme: "https", Host: q.Host, Path: "/resource"}, Proto: "HTTP/2.0", ProtoMajor: 2, Header: h, Host: q.Host}
+		r = &http.Request{Method: q.Method, URL: &url.URL{Scheme: "https", Host: q.Host, Path: "/resource"}, Proto: "HTTP/2.0", ProtoMajor: 2, Header: h, Host: q.Host}
+	} else {
+		r = &http.Request{Method: q.Method, URL: theURL, Proto: "HTTP/1.1", ProtoMajor: 1, ProtoMinor: 1, Header: h, Host: "server.test"}
 	}
-	return &http.Request{Method: q.Method, URL: theURL, Proto: "HTTP/1.1", ProtoMajor: 1, ProtoMinor: 1, Header: h, Host: "server.test"}
+	if q.Shape != 0 {
+		q.shape(r)
+	}
+	return r
+}
+
+var cancelledCtx = func() context.Context {
+	ctx, cancel := context.WithCancel(context.Background())
+	cancel()
+	return ctx
+}()
+
+type ctxKey struct{}
+
+// shape dresses r the way other deployments of net/http deliver requests.
+func (q Req) shape(r *http.Request) {
+	u := *r.URL
+	r.URL = &u
+	sh := q.Shape % nShapes
+	if sh < 0 {
+		sh = -sh
+	}
+	switch sh {
+	case 1: // an HTTP/1.0 client
+		r.Proto, r.ProtoMajor, r.ProtoMinor, r.Close = "HTTP/1.0", 1, 0, true
+		r.RemoteAddr = "198.51.100.9:40000"
+	case 2: // HTTP/2 over TLS
+		r.Proto, r.ProtoMajor, r.ProtoMinor = "HTTP/2.0", 2, 0
+		r.TLS = &tls.ConnectionState{Version: tls.VersionTLS13, HandshakeComplete: true, ServerName: r.Host}
+		r.RemoteAddr = "203.0.113.7:54321"
+	case 3: // a path and a query that talk about origins
+		u.Path, u.RawQuery = "/api/v1/items", "origin=https%3A%2F%2Fevil.test&x=1"
+		r.RequestURI = "/api/v1/items?" + u.RawQuery
+	case 4: // the asterisk form (OPTIONS *)
+		u.Path, u.Scheme, u.Host = "*", "", ""
+		r.RequestURI = "*"
+	case 5: // a body
+		r.Body, r.ContentLength = io.NopCloser(strings.NewReader("{\"a\":1}")), 7
+		r.GetBody = func() (io.ReadCloser, error) { return io.NopCloser(strings.NewReader("{\"a\":1}")), nil }
+	case 6: // the client has gone away already: the request's context is cancelled
+		*r = *r.WithContext(cancelledCtx)
+	case 7: // behind a mux: pattern set, form parsed, a context value, IPv6 peer
+		r.Pattern = "/resource"
+		r.Form, r.PostForm = url.Values{"origin": {"https://evil.test"}}, url.Values{}
+		r.RemoteAddr = "[::1]:80"
+		*r = *r.WithContext(context.WithValue(context.Background(), ctxKey{}, "v"))
+	case 8: // chunked upload over HTTP/1.1 with a trailer announced
+		r.TransferEncoding, r.ContentLength = []string{"chunked"}, -1
+		r.Body = io.NopCloser(strings.NewReader("data"))
+		r.Trailer = http.Header{"X-Checksum": nil}
+	}
+}
+
+// urlKey: what a cache uses as the primary key next to the method.
+func (q Req) urlKey() string {
+	sh := q.Shape % nShapes
+	switch sh {
+	case 3:
+		return q.Host + "/api/v1/items?q"
+	case 4:
+		return "*"
+	}
+	return q.Host + "/resource"
 }
 
 const (
@@ -387,6 +465,8 @@ var noiseVocab = []HV{
 	{"Priority", []string{"u=1"}},
 	{"Access-Control-Allow-Origin", []string{"*"}}, // a response header name sent as a request header
 	{"Vary", []string{"Origin"}},
+	// not a header: what else the *http.Request carries (Req.Shape)
+	{":shape", []string{"1", "2", "3", "4", "5", "6", "7", "8"}},
 	// not a header: the request's Host (r.Host and URL), e.g. equal to the Origin's host
 	{":host", []string{"example.com", "foo.example.com", "localhost", "example.com:443", "127.0.0.1:9090"}},
 }
@@ -396,10 +476,13 @@ func genNoise(r *R) []HV {
 	for _, hv := range subset(r, noiseVocab, 0.12) {
 		out = append(out, HV{hv.K, []string{pick(r, hv.V)}})
 	}
-	if t, ok := dictStr(r, dict.tokens, 0.15); ok && !strings.EqualFold(t, hOrigin) && !strings.EqualFold(t, hACRM) {
+	if t, ok := dict.tokens.pick(r, 0.15); ok && !strings.EqualFold(t, hOrigin) && !strings.EqualFold(t, hACRM) {
 		// a literal of the tree under test as a header name (in the form net/http delivers), with a mined value
-		v, _ := dictStr(r, dict.any, 1)
+		v, _ := dict.any.pick(r, 1)
 		out = append(out, HV{http.CanonicalHeaderKey(t), []string{v}})
+	}
+	if r.P(0.25) {
+		out = append(out, HV{":shape", []string{strconv.Itoa(r.Range(1, nShapes-1))}})
 	}
 	if len(out) == 0 {
 		hv := pick(r, noiseVocab)
@@ -411,8 +494,14 @@ func genNoise(r *R) []HV {
 // withNoise returns q with the headers of noise added (names q already has
 // are left alone).
 func (q Req) withNoise(noise []HV) Req {
-	out := Req{Method: q.Method, Host: q.Host, H: append([]HV{}, q.H...)}
+	out := Req{Method: q.Method, Host: q.Host, Shape: q.Shape, H: append([]HV{}, q.H...)}
 	for _, n := range noise {
+		if n.K == ":shape" {
+			if out.Shape == 0 && len(n.V) > 0 {
+				out.Shape, _ = strconv.Atoi(n.V[0])
+			}
+			continue
+		}
 		if n.K == ":host" {
 			if out.Host == "" && len(n.V) > 0 {
 				out.Host = n.V[0]
